@@ -15,6 +15,7 @@ extern crate rustc_span;
 
 use rustc_driver::{Callbacks, Compilation};
 use rustc_hir::def::DefKind;
+use rustc_hir::intravisit::{self, Visitor};
 use rustc_hir::def_id::{DefId, LocalDefId, LOCAL_CRATE};
 use rustc_interface::interface::Compiler;
 use rustc_middle::mir::{
@@ -921,6 +922,19 @@ impl<'tcx> Cx<'tcx> {
     }
 }
 
+struct UnsafeFinder {
+    spans: Vec<Span>,
+}
+
+impl<'v> Visitor<'v> for UnsafeFinder {
+    fn visit_block(&mut self, b: &'v rustc_hir::Block<'v>) {
+        if let rustc_hir::BlockCheckMode::UnsafeBlock(rustc_hir::UnsafeSource::UserProvided) = b.rules {
+            self.spans.push(b.span);
+        }
+        intravisit::walk_block(self, b)
+    }
+}
+
 struct Dump;
 
 impl Callbacks for Dump {
@@ -962,6 +976,35 @@ impl Callbacks for Dump {
             let b = steal.borrow().clone();
             bodies.push((def, b));
         }
+        // `unsafe` written in this crate: blocks (user provided) and unsafe fns.
+        let mut unsafe_sites: Vec<J> = vec![];
+        for def in tcx.hir_body_owners() {
+            let kind = tcx.def_kind(def);
+            if matches!(kind, DefKind::AnonConst | DefKind::InlineConst) {
+                continue;
+            }
+            if let Some(body) = tcx.hir_maybe_body_owned_by(def) {
+                let mut f = UnsafeFinder { spans: vec![] };
+                f.visit_expr(body.value);
+                for sp in f.spans {
+                    let mut o = vec![("kind", s("block")), ("in", s(path(tcx, def.to_def_id())))];
+                    for kv in cx.span(sp) {
+                        o.push(kv);
+                    }
+                    unsafe_sites.push(J::O(o));
+                }
+            }
+            if matches!(kind, DefKind::Fn | DefKind::AssocFn) {
+                let sig = tcx.fn_sig(def).skip_binder();
+                if !sig.safety().is_safe() {
+                    let mut o = vec![("kind", s("fn")), ("in", s(path(tcx, def.to_def_id())))];
+                    for kv in cx.span(tcx.def_span(def)) {
+                        o.push(kv);
+                    }
+                    unsafe_sites.push(J::O(o));
+                }
+            }
+        }
         // Pass 2: emit.
         let mut jb = vec![];
         for (def, b) in &bodies {
@@ -976,6 +1019,7 @@ impl Callbacks for Dump {
             ("overflow_checks", J::Bool(tcx.sess.overflow_checks())),
             ("n_bodies", J::U(bodies.len() as u128)),
             ("stolen", J::A(stolen.iter().map(|c| s(c.clone())).collect())),
+            ("unsafe", J::A(unsafe_sites)),
             ("adts", cx.adts()),
             ("impls", cx.impls()),
             ("bodies", J::A(jb)),
